@@ -260,7 +260,7 @@ def run_check(mod, tier, seed, replay=None):
     seen_mech = Counter()
     for case, v in unlisted:
         seen_mech[v['mech']] += 1
-        if seen_mech[v['mech']] > 5:
+        if seen_mech[v['mech']] > int(os.environ.get('VERIF_MAXPRINT', '5')):
             continue
         os.makedirs(rdir, exist_ok=True)
         path = os.path.join(rdir, f"{v['mech'].replace('/', '_')}_{seen_mech[v['mech']]}.json")
